@@ -3,7 +3,9 @@ package main
 // Projection of an strace log of the verif init-driver onto the operation language of
 // coq/model/FileOS.v: creates, writes (plain) or completed gzip members, fsyncs, closes,
 // links, unlinks, renames, and the marker lines (EV / DONE / FIN / ...) the hook writes
-// with one write(2) each, all in syscall completion order.
+// with one pwrite64(2) each, all in syscall completion order.  A system call of the router
+// thread that the tracer made fail (strace -e inject=..., marked "(INJECTED)") becomes a
+// "fail" operation, and is described in the model's terms (faultObs).
 
 import (
 	"bufio"
@@ -19,7 +21,8 @@ import (
 )
 
 type obsOp struct {
-	Kind   string // create write member fsync close link unlink rename fin exit trunc
+	Kind   string // create write member fsync close link unlink rename fin exit trunc fail
+	What   string // fail: write fsync close link unlink open
 	Dir    string // "out" | "work"
 	Name   string
 	Dir2   string
@@ -35,11 +38,24 @@ type obsOp struct {
 
 type marker map[string]interface{}
 
+// faultObs: the injected failure, as far as the trace determines it.
+type faultObs struct {
+	What    string // write fsync close link unlink open
+	EvIndex int    // index of the scripted event during which it happened (-1: none)
+	EvKind  string
+	MsgOrd  int // number of msg events started so far (= ordinal of the current message write)
+	Partial int // bytes the router wrote to output files since the event began (plain: of the current line)
+	Members int // gzip members completed so far
+}
+
 type traceResult struct {
-	Ops      []obsOp
-	Markers  []marker // in order, FIN included
-	ExitCode int
-	Unknown  []string
+	Ops       []obsOp
+	Markers   []marker // in order, FIN included
+	ExitCode  int
+	Unknown   []string
+	RouterTid int
+	Fault     *faultObs
+	Missed    string // an injected failure that did not hit a file operation of the router
 }
 
 var (
@@ -104,6 +120,21 @@ func parseTrace(path, outDir, workDir, markerPath string, gz bool) (*traceResult
 	var markerBuf []byte
 	rawPaths := map[string]bool{}
 	pendingTouch := ""
+	evIndex, evKind, msgOrd, evBytes, members := -1, "", 0, 0, 0
+	// an injected failure: only a file operation of the router thread on an output file
+	// counts as the fault of the run; anything else is reported as missed
+	fault := func(tid int, what, d, n string, onFile bool, line string) {
+		if tid != res.RouterTid || res.RouterTid == 0 || !onFile {
+			res.Missed = what + " injected outside the router's file operations: " + line
+			return
+		}
+		if res.Fault != nil {
+			res.Missed = "more than one injected failure"
+			return
+		}
+		res.Fault = &faultObs{What: what, EvIndex: evIndex, EvKind: evKind, MsgOrd: msgOrd, Partial: evBytes, Members: members}
+		res.Ops = append(res.Ops, obsOp{Kind: "fail", What: what, Dir: d, Name: n})
+	}
 
 	classify := func(p string) (string, string, bool) {
 		if strings.HasPrefix(p, outDir+"/") {
@@ -124,8 +155,10 @@ func parseTrace(path, outDir, workDir, markerPath string, gz bool) (*traceResult
 		}
 		res.Ops = append(res.Ops, obsOp{Kind: "write", Dir: d, Name: n, Data: append([]byte{}, data...)})
 	}
-	handle := func(sys, args, ret, tail string) {
+	handle := func(pid, sys, args, ret, tail string) {
 		rv, _ := strconv.Atoi(ret)
+		tid, _ := strconv.Atoi(pid)
+		injected := strings.Contains(tail, "(INJECTED)")
 		switch sys {
 		case "openat", "open":
 			ss := strArgs(args)
@@ -157,6 +190,10 @@ func parseTrace(path, outDir, workDir, markerPath string, gz bool) (*traceResult
 					rawPaths[p] = true
 				}
 			}
+			if injected {
+				fault(tid, "open", d, n, true, sys+" "+p+" "+tail)
+				return
+			}
 			if rv >= 0 {
 				op.OK = true
 				fds[rv] = &fdInfo{path: p}
@@ -168,13 +205,23 @@ func parseTrace(path, outDir, workDir, markerPath string, gz bool) (*traceResult
 				return
 			}
 			res.Ops = append(res.Ops, op)
-		case "write":
+		case "write", "pwrite64":
 			i := strings.Index(args, ",")
 			if i < 0 {
 				return
 			}
 			fd, _ := strconv.Atoi(strings.TrimSpace(args[:i]))
 			fi := fds[fd]
+			if injected && sys == "write" {
+				if fi != nil && !fi.marker {
+					if d, n, ok := classify(fi.path); ok {
+						fault(tid, "write", d, n, true, sys+" "+tail)
+						return
+					}
+				}
+				fault(tid, "write", "", "", false, sys+"("+strings.TrimSpace(args[:i])+") "+tail)
+				return
+			}
 			if fi == nil || rv <= 0 {
 				return
 			}
@@ -198,6 +245,17 @@ func parseTrace(path, outDir, workDir, markerPath string, gz bool) (*traceResult
 					dec.UseNumber()
 					if dec.Decode(&m) == nil {
 						res.Markers = append(res.Markers, m)
+						switch m["m"] {
+						case "ROUTER":
+							res.RouterTid, _ = strconv.Atoi(fmt.Sprint(m["tid"]))
+						case "EV":
+							evIndex, _ = strconv.Atoi(fmt.Sprint(m["i"]))
+							evKind = fmt.Sprint(m["k"])
+							evBytes = 0
+							if evKind == "msg" {
+								msgOrd++
+							}
+						}
 						if m["m"] == "TOUCHING" {
 							pendingTouch = fmt.Sprint(m["path"]) // the foreign file written by the hook itself is plain text
 						}
@@ -214,11 +272,15 @@ func parseTrace(path, outDir, workDir, markerPath string, gz bool) (*traceResult
 			if !ok {
 				return
 			}
+			if tid == res.RouterTid {
+				evBytes += len(data)
+			}
 			if gz && !rawPaths[fi.path] {
 				buf := append(gzbuf[fi.path], data...)
 				ms, used := completeMembers(buf)
 				for _, mdata := range ms {
 					res.Ops = append(res.Ops, obsOp{Kind: "member", Dir: d, Name: n, Data: mdata})
+					members++
 				}
 				gzbuf[fi.path] = buf[used:]
 			} else {
@@ -226,6 +288,16 @@ func parseTrace(path, outDir, workDir, markerPath string, gz bool) (*traceResult
 			}
 		case "fsync", "fdatasync":
 			fd, _ := strconv.Atoi(strings.TrimSpace(args))
+			if injected {
+				if fi := fds[fd]; fi != nil && !fi.marker {
+					if d, n, ok := classify(fi.path); ok {
+						fault(tid, "fsync", d, n, true, sys+" "+tail)
+						return
+					}
+				}
+				fault(tid, "fsync", "", "", false, sys+"("+args+") "+tail)
+				return
+			}
 			if fi := fds[fd]; fi != nil && !fi.marker && rv == 0 {
 				if d, n, ok := classify(fi.path); ok {
 					res.Ops = append(res.Ops, obsOp{Kind: "fsync", Dir: d, Name: n})
@@ -244,6 +316,16 @@ func parseTrace(path, outDir, workDir, markerPath string, gz bool) (*traceResult
 			}
 		case "close":
 			fd, _ := strconv.Atoi(strings.TrimSpace(args))
+			if injected { // the call was not made: the descriptor stays open
+				if fi := fds[fd]; fi != nil && !fi.marker {
+					if d, n, ok := classify(fi.path); ok {
+						fault(tid, "close", d, n, true, sys+" "+tail)
+						return
+					}
+				}
+				fault(tid, "close", "", "", false, sys+"("+args+") "+tail)
+				return
+			}
 			if fi := fds[fd]; fi != nil {
 				// close(2) is not reported: it has no effect on file contents and Go closes
 				// leaked descriptors from a finalizer at arbitrary instants
@@ -260,6 +342,10 @@ func parseTrace(path, outDir, workDir, markerPath string, gz bool) (*traceResult
 				return
 			}
 			op := obsOp{Kind: "link", Dir: d1, Name: n1, Dir2: d2, Name2: n2}
+			if injected {
+				fault(tid, "link", d1, n1, true, sys+" "+tail)
+				return
+			}
 			if rv == 0 {
 				op.OK = true
 			} else if !strings.Contains(tail, "EEXIST") {
@@ -269,6 +355,11 @@ func parseTrace(path, outDir, workDir, markerPath string, gz bool) (*traceResult
 			res.Ops = append(res.Ops, op)
 		case "unlink", "unlinkat":
 			ss := strArgs(args)
+			if injected && len(ss) >= 1 {
+				d, n, ok := classify(string(ss[0]))
+				fault(tid, "unlink", d, n, ok, sys+" "+tail)
+				return
+			}
 			if len(ss) < 1 || rv != 0 {
 				return
 			}
@@ -310,11 +401,11 @@ func parseTrace(path, outDir, workDir, markerPath string, gz bool) (*traceResult
 			if len(parts) == 2 && parts[0] == m[2] {
 				a = parts[1]
 			}
-			handle(m[2], a+m[3], m[4], m[5])
+			handle(m[1], m[2], a+m[3], m[4], m[5])
 			continue
 		}
 		if m := reFull.FindStringSubmatch(line); m != nil {
-			handle(m[2], m[3], m[4], m[5])
+			handle(m[1], m[2], m[3], m[4], m[5])
 			continue
 		}
 		if m := reExited.FindStringSubmatch(line); m != nil {
